@@ -4,13 +4,21 @@
 //! offending line number on stderr (`TIMEOUT <n>`), so non-termination is an observed outcome, not a hang.
 mod ops_gen;
 mod extra;
+mod hard;
 use std::io::{self, BufRead, Write};
 use std::panic::{catch_unwind, AssertUnwindSafe};
 use std::sync::atomic::{AtomicU64, Ordering};
 use std::sync::Arc;
 
 fn main() {
-    std::panic::set_hook(Box::new(|_| {}));
+    let argv: Vec<String> = std::env::args().collect();
+    if argv.len() == 3 && argv[1] == "--sqrt-hard" {
+        hard::sqrt_hard(argv[2].parse().unwrap());
+        return;
+    }
+    if std::env::var("VERIF_PANIC_MSG").is_err() {
+        std::panic::set_hook(Box::new(|_| {})); // silent unless VERIF_PANIC_MSG is set (debugging aid)
+    }
     let cur = Arc::new(AtomicU64::new(0)); // (line number << 1) | busy
     let stamp = Arc::new(AtomicU64::new(0));
     {
